@@ -14,6 +14,9 @@ mod c10;
 mod c11;
 mod c12;
 mod c13;
+mod c14;
+mod c15;
+mod c16;
 mod e2;
 mod c19;
 mod e1;
@@ -59,6 +62,9 @@ fn main() {
         "C11" => c11::run(tier, replay),
         "C12" => c12::run(tier, replay),
         "C13" => c13::run(tier, replay),
+        "C14" => c14::run(tier, replay),
+        "C15" => c15::run(tier, replay),
+        "C16" => c16::run(tier, replay),
         "C19" => c19::run(tier, replay),
         other => {
             eprintln!("unknown property id {}", other);
